@@ -13,6 +13,11 @@ MODULES = {
     "optimal_steps": dict(file="kani/optimal_steps.rs", pkg="nucleo-matcher", inject="matcher/src/fuzzy_optimal.rs", parent="fuzzy_optimal"),
     "prefilter": dict(file="kani/prefilter.rs", pkg="nucleo-matcher", inject="matcher/src/prefilter.rs", parent="prefilter", needs=["spec"]),
     "exact": dict(file="kani/exact.rs", pkg="nucleo-matcher", inject="matcher/src/exact.rs", parent="exact", needs=["spec"]),
+    "greedy": dict(file="kani/greedy.rs", pkg="nucleo-matcher", inject="matcher/src/fuzzy_greedy.rs", parent="fuzzy_greedy", needs=["spec"]),
+    "optimal": dict(file="kani/optimal.rs", pkg="nucleo-matcher", inject="matcher/src/fuzzy_optimal.rs", parent="fuzzy_optimal", needs=["spec"]),
+    "entry": dict(file="kani/entry.rs", pkg="nucleo-matcher", inject="matcher/src/lib.rs", parent="", needs=["spec", "optimal"]),
+    "boxcar": dict(file="kani/boxcar.rs", pkg="nucleo", inject="src/boxcar.rs", parent="boxcar"),
+    "par_sort": dict(file="kani/par_sort.rs", pkg="nucleo", inject="src/par_sort.rs", parent="par_sort"),
     "score": dict(file="kani/score.rs", pkg="nucleo-matcher", inject="matcher/src/score.rs", parent="score", needs=["spec"]),
 }
 
@@ -30,6 +35,7 @@ HOOKS = []   # cfg(kani)-only helper items appended to real source files in the 
 FEATURES = {}
 
 TRUSTED_BASE = [
+    "Verus 0.2026.09.13 / Z3 on functions extracted verbatim from /repo by lib/nvverus.py (rewrite rules R1-R5 listed there); spec integers are mathematical with range checks on exec arithmetic",
     "Kani 0.68.0 / CBMC 6.11.0 and the SAT back ends (cadical, kissat): bit-precise machine integers, bounded memory model for unsafe code",
     "Kani's pinned rustc nightly and its std (char::is_lowercase etc. as compiled by that toolchain, which is not the toolchain that builds the shipped crate)",
     "memchr crate replaced by the naive reference shim /verif/shim/memchr in the verified copy (assumed contract on a dependency; differential-tested natively)",
@@ -91,28 +97,273 @@ U("c10-alloc-guards", "matrix", "c10_alloc_guards", {"C10": "quick"}, "complete"
   "for every haystack length <= 70000 and needle length: alloc refuses when a guard fails; on success the views have the lengths the DP relies on and the matrix view lies inside the slab", cost=8)
 U("c10-layout-canary", "matrix", "c10_layout_canary", {"C10": "quick"}, "complete", [], "canary", expect="fail", no_cover=True)
 
-# calculate_score, bounded
+# calculate_score, bounded: shapes instantiated here, contract fns in kani/score.rs
 SCORE_FNS = ["Matcher::calculate_score"]
-U("c03-calculate-score-ascii-6-3", "score", "c03_calculate_score_ascii_6_3", {"C03": "quick", "C02": "quick", "C10": "quick"}, "bounded", SCORE_FNS,
-  "calculate_score on every forward-greedy window: W (indices), score == fzf scheme on the indices, INDICES variants agree, prefer_prefix adds 0..=8",
-  bound="ASCII haystack len 6, needle len 3, all windows, all configs, prior vector content <= 2", cost=9)
-U("c03-calculate-score-ascii-5-2", "score", "c03_calculate_score_ascii_5_2", {"C03": "quick", "C02": "quick", "C04": "quick"}, "bounded", SCORE_FNS,
-  "same", bound="ASCII haystack len 5, needle len 2", cost=5)
-U("c03-calculate-score-ascii-7-3", "score", "c03_calculate_score_ascii_7_3", {"C03": "thorough", "C02": "thorough"}, "bounded", SCORE_FNS,
-  "same", bound="ASCII haystack len 7, needle len 3", cost=9, timeout=3600)
-U("c03-score-canary", "score", "c03_score_canary", {"C03": "quick", "C02": "quick"}, "bounded", [], "canary", expect="fail", no_cover=True)
+
+
+def UC(name, module, call, props, kind, functions, desc, unwind=None, **kw):
+    if call is None:
+        U(name, module, name.replace("-", "_"), props, kind, functions, desc, **kw)
+    else:
+        U(name, module, name.replace("-", "_"), props, kind, functions, desc, call=call, unwind=unwind, **kw)
+
+
+CFGNAME = {0: "DEFAULT", 1: "match_paths()"}
+for n, lens in ((1, (1,)), (2, (2, 3, 4, 5)), (3, (3, 4, 5))):
+    for L in lens:
+        for st in (0, 1):
+            for k in (0, 1):
+                h = L + st
+                shape = "%d,%d,%d,%d" % (h, n, st, k)
+                tag = "h%d-n%d-s%d-k%d" % (h, n, st, k)
+                bound = "ASCII haystack window of %d chars%s, needle %d chars, %s, all bytes/ignore_case/normalize" % (L, " preceded by one char" if st else " at position 0", n, CFGNAME[k])
+                tier = "quick" if (L <= 4 or (n == 3 and k == 0)) else "thorough"
+                UC("c03-cs-ws-" + tag, "score", "cs_witness_and_score::<%s>()" % shape, {"C03": tier, "C02": tier, "C10": tier}, "bounded", SCORE_FNS,
+                   "calculate_score: appended indices == forward-greedy positions, valid witness, prior content untouched, score == fzf scheme on those indices",
+                   unwind=max(h + 3, 7), bound=bound, cost=3)
+                if (n, L) in ((2, 4), (3, 5)):
+                    UC("c03-cs-agree-" + tag, "score", "cs_variants_agree::<%s>()" % shape, {"C03": "quick"}, "bounded", SCORE_FNS,
+                       "calculate_score: score-only and indices variants return the same value", unwind=max(h + 3, 7), bound=bound, cost=2)
+                    UC("c04-cs-prefix-" + tag, "score", "cs_prefer_prefix::<%s>()" % shape, {"C04": "quick"}, "bounded", SCORE_FNS,
+                       "calculate_score: prefer_prefix raises the score by 0..=8 (exactly 8 at position 0)", unwind=max(h + 3, 7), bound=bound, cost=2)
+U("c10-prefix-term-no-overflow", "score", "c10_prefix_term_no_overflow", {"C10": "quick", "C04": "quick"}, "complete", SCORE_FNS,
+  "for every match start position < 70000 (all base configs, prefer_prefix on): calculate_score's prefix term neither overflows nor leaves 16..=44 for a one-character match")
+UC("c03-cs-canary", "score", "cs_canary()", {"C03": "quick", "C02": "quick"}, "bounded", [], "canary", unwind=8, expect="fail", no_cover=True)
+
+# prefilter (ASCII), greedy, optimal, exact: bounded
+PRE_FNS = ["Matcher::prefilter_ascii", "prefilter::find_ascii_ignore_case", "prefilter::find_ascii_ignore_case_rev"]
+UC("c16-prefilter-byte-relation", "prefilter", None, {"C16": "quick", "C01": "quick"}, "complete", PRE_FNS[1:],
+   "for all (needle byte, haystack byte, ignore_case): the prefilter's byte search finds h for c exactly when normalize(h) == c")
+UNITS[-1]["harness"] = "c16_prefilter_byte_relation"
+for (h, n) in ((3, 1), (4, 2), (5, 2), (5, 3), (6, 3)):
+    for k in (0, 1):
+        tier = "quick" if (h <= 5 and not (h == 5 and n == 3 and k == 1)) else "thorough"
+        UC("c01-prefilter-ascii-h%d-n%d-k%d" % (h, n, k), "prefilter", "prefilter_ascii_contract::<%d,%d,%d>()" % (h, n, k), {"C01": tier, "C10": tier}, "bounded", PRE_FNS,
+           "prefilter_ascii: None <=> needle is not a normalised subsequence; start = first occurrence of needle[0]; (start, greedy_end) is the forward-greedy window; end-1 = last occurrence of the last needle char",
+           unwind=max(h + 3, 7), bound="ASCII haystack %d, needle %d, %s, all bytes/ignore_case/normalize/only_greedy" % (h, n, CFGNAME[k]), cost=3)
+UC("c01-prefilter-canary", "prefilter", "prefilter_canary()", {"C01": "quick"}, "bounded", [], "canary", unwind=8, expect="fail", no_cover=True)
+
+GREEDY_FNS = ["Matcher::fuzzy_match_greedy_", "Matcher::calculate_score"]
+for n, lens in ((2, (2, 3, 4)), (3, (4, 5))):
+    for L in lens:
+        for st in (0, 1):
+            for k in (0, 1):
+                h = L + st
+                shape = "%d,%d,%d,%d" % (h, n, st, k)
+                tag = "h%d-n%d-s%d-k%d" % (h, n, st, k)
+                bound = "ASCII greedy window of %d chars%s, needle %d, %s" % (L, " preceded by one char" if st else "", n, CFGNAME[k])
+                tier = "quick" if (L <= 4 or k == 0) else "thorough"
+                UC("c02-greedy-ws-" + tag, "greedy", "greedy_ascii_witness_and_score::<%s>()" % shape, {"C01": tier, "C02": tier, "C03": tier, "C10": tier}, "bounded", GREEDY_FNS,
+                   "fuzzy_match_greedy_ (ASCII): Some under the prefilter's postcondition; W; score == fzf scheme on the indices", unwind=max(h + 3, 7), bound=bound, cost=4)
+                if (n, L) in ((2, 4), (3, 5)) and k == 0:
+                    UC("c03-greedy-agree-" + tag, "greedy", "greedy_ascii_agree::<%s>()" % shape, {"C03": "quick"}, "bounded", GREEDY_FNS,
+                       "fuzzy_match_greedy_: score-only and indices variants agree", unwind=max(h + 3, 7), bound=bound, cost=3)
+UC("c02-greedy-canary", "greedy", "greedy_canary()", {"C02": "quick", "C01": "quick"}, "bounded", [], "canary", unwind=8, expect="fail", no_cover=True)
+
+OPT_FNS = ["Matcher::fuzzy_match_optimal", "MatcherDataView::setup", "MatcherDataView::score_row", "MatcherDataView::populate_matrix", "MatcherDataView::reconstruct_optimal_path", "MatrixSlab::alloc"]
+for n, lens in ((2, (3, 4, 5)), (3, (4, 5))):
+    for L in lens:
+        for st in (0, 1):
+            for k in (0, 1):
+                h = L + st
+                shape = "%d,%d,%d,%d" % (h, n, st, k)
+                tag = "h%d-n%d-s%d-k%d" % (h, n, st, k)
+                bound = "ASCII prefilter window of %d chars%s, needle %d, %s, 256-byte slab" % (L, " preceded by one char" if st else "", n, CFGNAME[k])
+                small = (L <= 4 and n == 2) or (L == 4 and n == 3 and st == 0)
+                tier = "quick" if small else "thorough"
+                UC("c02-opt-ws-" + tag, "optimal", "opt_witness_and_score::<%s>()" % shape, {"C01": tier, "C02": tier, "C03": tier, "C10": tier}, "bounded", OPT_FNS,
+                   "fuzzy_match_optimal (ASCII): Some under the prefilter's postcondition; W; score == fzf scheme on the indices", unwind=max(h + 3, 7), bound=bound, cost=8, timeout=1500)
+                UC("c04-opt-best-" + tag, "optimal", "opt_at_most_best::<%s>()" % shape, {"C04": tier}, "bounded", OPT_FNS,
+                   "fuzzy_match_optimal: score <= maximum of the fzf scheme over all alignments (brute force)", unwind=max(h + 3, 7), bound=bound, cost=8, timeout=1500)
+                UC("c04-opt-rec-" + tag, "optimal", "opt_at_least_recurrence::<%s>()" % shape, {"C04": tier}, "bounded", OPT_FNS,
+                   "fuzzy_match_optimal: score >= naive full-matrix two-matrix recurrence", unwind=max(h + 3, 7), bound=bound, cost=8, timeout=1500)
+                if k == 0:
+                    UC("c03-opt-agree-" + tag, "optimal", "opt_agree::<%s>()" % shape, {"C03": tier, "C10": tier}, "bounded", OPT_FNS,
+                       "fuzzy_match_optimal: score-only and indices variants agree (second call on the same matcher)", unwind=max(h + 3, 7), bound=bound, cost=8, timeout=1500)
+                    UC("c04-opt-prefix-" + tag, "optimal", "opt_prefer_prefix::<%s>()" % shape, {"C04": tier}, "bounded", OPT_FNS,
+                       "fuzzy_match_optimal: prefer_prefix raises the score by 0..=8", unwind=max(h + 3, 7), bound=bound, cost=8, timeout=1500)
+                    UC("c10-opt-history-" + tag, "optimal", "opt_history_independent::<%s>()" % shape, {"C10": tier}, "bounded", OPT_FNS,
+                       "fuzzy_match_optimal: same score and indices from a fresh matcher and from one whose scratch memory holds arbitrary bytes", unwind=max(h + 3, 7), bound=bound, cost=8, timeout=1500)
+UC("c04-opt-canary", "optimal", "opt_canary()", {"C04": "quick", "C01": "quick", "C10": "quick"}, "bounded", [], "canary", unwind=8, expect="fail", no_cover=True)
+
+EXACT_FNS = ["Matcher::substring_match_1_ascii", "Matcher::substring_match_ascii", "Matcher::substring_match_ascii_with_prefilter", "Matcher::calculate_score"]
+for h in (3, 5):
+    for k in (0, 1):
+        UC("c05-sub1-ascii-h%d-k%d" % (h, k), "exact", "sub1_ascii::<%d,%d>()" % (h, k), {"C05": "quick", "C04": "quick", "C02": "quick", "C03": "quick"}, "bounded", EXACT_FNS[:1],
+           "substring_match_1_ascii: Some <=> char occurs; reports the leftmost occurrence with the highest bonus (true optimum); score 16+2*bonus; one index appended; None appends nothing",
+           unwind=max(h + 3, 7), bound="ASCII haystack %d, needle 1, %s" % (h, CFGNAME[k]), cost=3)
+    UC("c05-sub1-ascii-agree-h%d" % h, "exact", "sub1_ascii_agree::<%d,0>()" % h, {"C03": "quick"}, "bounded", EXACT_FNS[:1], "substring_match_1_ascii: variants agree", unwind=max(h + 3, 7), bound="ASCII haystack %d" % h)
+for (h, n) in ((3, 2), (4, 2), (5, 2), (4, 3), (5, 3), (6, 3), (6, 4)):
+    for k in (0, 1):
+        tier = "quick" if h <= 5 else "thorough"
+        bound = "ASCII haystack %d, needle %d, %s" % (h, n, CFGNAME[k])
+        UC("c05-sub-ascii-dec-h%d-n%d-k%d" % (h, n, k), "exact", "sub_ascii_decision::<%d,%d,%d>()" % (h, n, k), {"C05": tier, "C10": tier}, "bounded", EXACT_FNS[1:3],
+           "substring_match_ascii: Some <=> the needle occurs contiguously in the normalised haystack", unwind=max(h + 3, 7), bound=bound, cost=4)
+        UC("c05-sub-ascii-wit-h%d-n%d-k%d" % (h, n, k), "exact", "sub_ascii_witness::<%d,%d,%d>()" % (h, n, k), {"C05": tier, "C02": tier, "C03": tier}, "bounded", EXACT_FNS[1:],
+           "substring_match_ascii: leftmost occurrence with the highest first-char bonus; contiguous valid witness; score == scheme; None appends nothing", unwind=max(h + 3, 7), bound=bound, cost=5)
+    if (h, n) in ((4, 2), (5, 3)):
+        UC("c03-sub-ascii-agree-h%d-n%d" % (h, n), "exact", "sub_ascii_agree::<%d,%d,0>()" % (h, n), {"C03": "quick"}, "bounded", EXACT_FNS[1:], "substring_match_ascii: variants agree", unwind=max(h + 3, 7), bound="ASCII haystack %d, needle %d" % (h, n))
+UC("c05-exact-canary", "exact", "exact_canary()", {"C05": "quick"}, "bounded", [], "canary", unwind=8, expect="fail", no_cover=True)
+
+# public entry points, ASCII x ASCII
+ALGS = {0: ("fuzzy", ["Matcher::fuzzy_match", "Matcher::fuzzy_indices", "Matcher::fuzzy_matcher_impl"]),
+        1: ("greedy", ["Matcher::fuzzy_match_greedy", "Matcher::fuzzy_indices_greedy", "Matcher::fuzzy_match_greedy_impl"]),
+        2: ("substring", ["Matcher::substring_match", "Matcher::substring_indices", "Matcher::substring_match_impl"]),
+        3: ("prefix", ["Matcher::prefix_match", "Matcher::prefix_indices", "Matcher::exact_match_impl", "Utf32Str::leading_white_space"]),
+        4: ("postfix", ["Matcher::postfix_match", "Matcher::postfix_indices", "Matcher::exact_match_impl", "Utf32Str::trailing_white_space"]),
+        5: ("exact", ["Matcher::exact_match", "Matcher::exact_indices", "Matcher::exact_match_impl"])}
+for alg, (aname, fns) in ALGS.items():
+    decp = {"C01": "quick"} if alg <= 1 else {"C05": "quick"}
+    for (h, n) in ((3, 0), (2, 3), (3, 3), (4, 1), (4, 2), (5, 3), (5, 2)):
+        for k in (0, 1):
+            if k == 1 and (h, n) != (4, 2):
+                continue
+            heavy = (alg == 0 and n >= 2 and n < h)
+            if alg == 0 and (h, n) in ((5, 3), (5, 2)):
+                tier = "thorough"
+            elif (h, n) == (5, 2) and alg != 0:
+                tier = "thorough"
+            else:
+                tier = "quick"
+            tag = "%s-h%d-n%d-k%d" % (aname, h, n, k)
+            bound = "entry point %s, Ascii x Ascii, haystack %d, needle %d, %s" % (aname, h, n, CFGNAME[k])
+            dp = dict((p, tier) for p in decp)
+            dp["C10"] = tier
+            UC("c01-entry-dec-" + tag, "entry", "entry_decision::<%d,%d,%d,%d>()" % (alg, h, n, k), dp, "bounded", fns,
+               "%s_match succeeds exactly when the documented relation holds (empty needle => Some(0))" % aname, unwind=max(h + 3, 7), bound=bound, cost=9 if heavy else 3, timeout=1500)
+            wp = {"C02": tier, "C03": tier}
+            wp.update(dp)
+            UC("c02-entry-wit-" + tag, "entry", "entry_witness::<%d,%d,%d,%d>()" % (alg, h, n, k), wp, "bounded", fns,
+               "%s_indices: same decision; W; contiguous+anchored for non-fuzzy kinds; score == fzf scheme on the indices; None appends nothing" % aname, unwind=max(h + 3, 7), bound=bound, cost=9 if heavy else 4, timeout=1500)
+            if (h, n) in ((4, 2), (3, 3)) and k == 0:
+                UC("c03-entry-agree-" + tag, "entry", "entry_agree::<%d,%d,%d,%d>()" % (alg, h, n, k), {"C03": tier, "C10": tier}, "bounded", fns,
+                   "%s: score-only and indices entry points agree, also on a reused matcher" % aname, unwind=max(h + 3, 7), bound=bound, cost=9 if heavy else 3, timeout=1500)
+UC("c05-entry-canary", "entry", "entry_canary()", {"C05": "quick", "C01": "quick"}, "bounded", [], "canary", unwind=8, expect="fail", no_cover=True)
+
+# ---------------------------------------------------------------------------
+# C08 / C11  boxcar vector (sequential content only)
+# ---------------------------------------------------------------------------
+U("c08-location-of", "boxcar", "c08_location_of", {"C08": "quick"}, "complete", ["boxcar::Location::of", "boxcar::Location::bucket_len", "boxcar::Location::alloc_next_bucket_entry"],
+  "for all 2^32-32 indices: bucket < 27, entry < bucket_len, (bucket_len - 32) + entry == index (bijective, order preserving, gap free)")
+U("c08-location-order", "boxcar", "c08_location_order", {"C08": "quick"}, "complete", ["boxcar::Location::of"],
+  "for all i < j: slot(i) < slot(j) lexicographically")
+for t in ("u8", "u64", "24"):
+    U("c08-entry-layout-" + t, "boxcar", "c08_entry_layout_" + t, {"C08": "quick", "C11": "quick"}, "complete", ["boxcar::Entry::layout", "boxcar::Bucket::layout", "boxcar::Bucket::get"],
+      "for all columns <= 65536, buckets 0..8, entry idx: columns lie inside the entry, entry lies inside the bucket allocation, Bucket::get addresses it (payload type %s)" % t)
+VEC_FNS = ["boxcar::Vec::with_capacity", "boxcar::Vec::push", "boxcar::Vec::extend", "boxcar::Vec::get", "boxcar::Vec::count", "boxcar::Vec::get_or_alloc", "boxcar::Bucket::alloc", "boxcar::Entry::read"]
+for cap in (0, 1, 33):
+    for cols in (1, 2):
+        if cap == 33 and cols == 2:
+            continue
+        UC("c08-vec-push-get-cap%d-cols%d" % (cap, cols), "boxcar", "vec_push_get::<%d,%d>()" % (cap, cols), {"C08": "quick"}, "bounded", VEC_FNS,
+           "push;push;get(i): gap-free indices, read-your-writes (value and columns), nothing for unassigned indices, count == completed pushes",
+           unwind=70, bound="2 pushes, initial capacity %d, %d column(s), lookups at 0..3,31,32,95,96; single thread" % (cap, cols), cost=6, timeout=1500)
+for (cap, cols, pre) in ((0, 1, 0), (1, 1, 30), (0, 2, 94), (0, 1, 100)):
+    UC("c08-vec-extend-get-cap%d-cols%d-pre%d" % (cap, cols, pre), "boxcar", "vec_extend_get::<%d,%d,%d>()" % (cap, cols, pre), {"C08": "quick"}, "bounded", VEC_FNS,
+       "[reserve PRE unfilled]; extend(reports 3, yields 0..3); push; get: indices reserved as reported, filled as yielded, unfilled read as nothing, next push continues gap-free (batch crosses a bucket boundary for PRE=30/94)",
+       unwind=70, bound="batch of 3 starting at index %d, capacity %d, %d column(s); single thread" % (pre, cap, cols), cost=8, timeout=1500)
+for (cap, pre) in ((0, 0), (1, 30), (0, 100)):
+    UC("c11-vec-drop-cap%d-pre%d" % (cap, pre), "boxcar", "vec_drop_exactly_once::<%d,%d>()" % (cap, pre), {"C11": "quick"}, "bounded", ["boxcar::Vec::drop", "boxcar::Bucket::dealloc"] + VEC_FNS[:3],
+       "[reserve PRE unfilled]; extend(reports 2, yields 0..2); push; drop(vec): each yielded/pushed item dropped exactly once, nothing dropped early",
+       unwind=130, bound="history of <= 3 operations starting at index %d, capacity %d; single thread, no panics" % (pre, cap), cost=8, timeout=1500)
+UC("c08-boxcar-canary", "boxcar", "boxcar_canary()", {"C08": "quick", "C11": "quick"}, "bounded", [], "canary", unwind=40, expect="fail", no_cover=True)
+
+# ---------------------------------------------------------------------------
+# C18  par_sort building blocks (sequential, bounded)
+# ---------------------------------------------------------------------------
+SORT = [("insertion_sort", "insertion-sort", (6,), "sorted permutation"),
+        ("heapsort", "heapsort", (6,), "sorted permutation"),
+        ("shift_head", "shift-head", (6,), "tail sorted => sorted permutation"),
+        ("shift_tail", "shift-tail", (6,), "head sorted => sorted permutation"),
+        ("partial_insertion_sort", "partial-insertion-sort", (6,), "true => sorted; always a permutation"),
+        ("partition", "partition", (6,), "pivot at mid, left < pivot <= right, permutation"),
+        ("partition_equal", "partition-equal", (6,), "left == pivot < right, permutation (pre: pivot is a minimum)"),
+        ("choose_pivot", "choose-pivot", (8,), "index in bounds, permutation"),
+        ("break_patterns", "break-patterns", (8,), "permutation"),
+        ("par_quicksort", "par-quicksort", (5,), "sorted permutation and 'not cancelled' if the flag is never raised; flag raised before => cancelled, still a permutation")]
+for fn, tag, lens, what in SORT:
+    for L in lens:
+        UC("c18-%s-%d" % (tag, L), "par_sort", "c18_%s::<%d>()" % (fn, L), {"C18": "quick"}, "bounded", ["par_sort::" + fn],
+           "%s: %s" % (fn, what), unwind=L + 3, bound="every array of %d bytes, strict weak order = low 2 bits (ties with distinguishable payloads)" % L, cost=6, timeout=1500)
+UC("c18-canary", "par_sort", "c18_canary()", {"C18": "quick"}, "bounded", [], "canary", unwind=8, expect="fail", no_cover=True)
+
+# ---------------------------------------------------------------------------
+# Verus: step functions extracted verbatim + row induction (unbounded)
+# ---------------------------------------------------------------------------
+def UV(name, fns, props, functions, desc, **kw):
+    U(name, None, None, props, "complete", functions, desc, engine="verus", vspec="steps.vspec", verus_fns=fns, no_cover=True, **kw)
+
+
+UV("v-next-m-cell", ["next_m_cell"], {"C03": "quick", "C04": "quick", "C10": "quick"}, ["fuzzy_optimal::next_m_cell (extracted verbatim)"],
+   "Verus: next_m_cell == README M-step with literal numbers, grows by <= 26, result >= 16, no overflow (all inputs within the headroom)")
+UV("v-p-score", ["p_score"], {"C03": "quick", "C04": "quick"}, ["fuzzy_optimal::p_score (extracted verbatim)"],
+   "Verus: p_score == max(m-3, p-1) floored at 0, never exceeds its inputs")
+UV("v-constants", ["lemma_constants"], {"C03": "quick"}, ["score::SCORE_MATCH, PENALTY_GAP_START, PENALTY_GAP_EXTENSION, BONUS_BOUNDARY, BONUS_CONSECUTIVE, matrix::MAX_NEEDLE_LEN (extracted)"],
+   "Verus: the extracted constants are 16 / 3 / 1 / 8 / 4 / 2048")
+UV("v-rows-fit-u16", ["lemma_rows_fit_u16", "lemma_row_bound_closed_form"], {"C03": "quick", "C10": "quick"}, ["row induction over next_m_cell's contract"],
+   "Verus (induction, unbounded): for every row r < MAX_NEEDLE_LEN, 44 + 26 r <= 65509, i.e. next_m_cell's precondition holds for every row the slab admits and no DP cell can wrap u16")
 
 # ---------------------------------------------------------------------------
 BOUNDED_NOTE = " String-level obligations are bounded stand-ins (lengths stated per obligation, full byte alphabet, all configurations) and are not counted as proved."
+KANI = "Kani/CBMC contract harnesses and function contracts on the real functions (scratch copy of /repo, contract modules injected)"
+NOTE_COMMON = "Trusted: Kani/CBMC/SAT solvers, Kani's pinned std, memchr replaced by a naive reference shim in the verified copy (differential-tested), termination not verified. Matchers run around a 256-byte slab in string-level harnesses (stricter than the 135 KB one). Non-ASCII haystack paths are checked over a 15-character non-ASCII alphabet + all ASCII, with the character-level functions replaced by a table that a separate complete obligation ties to the real functions."
+
+
+def P(level, text, technique, explanation, note=NOTE_COMMON, assumptions=()):
+    return dict(level=level, manifest_text=text, technique=technique, explanation=explanation, level_note=note, assumptions=list(assumptions))
+
+
 PROPERTIES = {
-    "C02": dict(level="other", explanation="Contract checking of the real functions with Kani/CBMC: witness contract W on every indices-returning function." + BOUNDED_NOTE, assumptions=[]),
-    "C03": dict(level="other", explanation="Bonus rules, ASCII classes, constants and both recurrence steps are proved for all inputs against the scheme written with literal numbers (complete); score == scheme(reported indices) is checked per function on bounded strings." + BOUNDED_NOTE, assumptions=[]),
-    "C04": dict(level="other", explanation="Recurrence steps proved complete; optimality relations checked on bounded strings." + BOUNDED_NOTE, assumptions=[]),
-    "C10": dict(level="other", explanation="Slab layout proved for all sizes that pass alloc's guards (complete); panic/overflow/bounds freedom of the string-level functions is checked by CBMC's built-in checks on bounded strings." + BOUNDED_NOTE, assumptions=[]),
-    "C16": dict(level="proof",
-                explanation="Every deciding obligation quantifies over the whole char domain (1,112,064 scalar values, split into ranges that partition it) x all configurations and is loop-free or fully unwound with unwinding assertions on: complete proofs by Kani/CBMC on the real functions.",
-                assumptions=["Unicode oracle = Python unicodedata 14.0 cross-checked with regex-syntax 16.0 tables (see generated/oracle_unicode.json)"]),
+    "C01": P("other", "bounded contract checking of the real functions: prefilter -> greedy/optimal -> four fuzzy entry points decide exactly the normalised-subsequence relation, for every byte content of haystacks <= 5-6 and needles <= 3 (incl. empty, equal length, longer), all configurations; complete sub-obligation: the prefilter's byte search relation. Bounded, not a proof.",
+             "contract-based deductive verification (Kani function contracts / contract harnesses, bounded strings)",
+             "Decision contracts against the normalised-subsequence relation." + BOUNDED_NOTE),
+    "C02": P("other", "bounded contract checking: witness contract W (one index per needle char, prior content untouched, strictly increasing, in range, normalises to the needle char; contiguous+anchored for non-fuzzy kinds; None appends nothing) as postcondition of every indices-returning function; MatrixCell back-pointer encoding proved complete.",
+             "contract-based deductive verification (Kani, bounded strings; complete for the cell encoding)",
+             "Witness contract W on every indices-returning function." + BOUNDED_NOTE),
+    "C03": P("other", "constants, bonus rules, ASCII classes and both recurrence steps are PROVED for all inputs against the fzf scheme written with literal numbers (Kani complete + Verus on extracted code incl. the row induction for 'never wraps' on the matrix path); score == scheme(reported indices), variant agreement are bounded contract checks per function.",
+             "contract-based deductive verification (Kani function contracts complete for step functions; Verus induction lemma; bounded string-level contracts)",
+             "Bonus rules, classes, constants, recurrence steps proved complete; score == scheme(indices) per function on bounded strings." + BOUNDED_NOTE),
+    "C04": P("other", "recurrence steps proved complete (Kani + Verus); on bounded strings: optimal score <= brute-force maximum over all alignments, >= naive full-matrix two-matrix recurrence, one-char needle == true optimum (both bonus configurations), prefer_prefix raises by 0..=8.",
+             "contract-based deductive verification (Kani; Verus for steps; bounded strings with brute-force/naive-recurrence spec functions)",
+             "Recurrence steps proved complete; optimality relations on bounded strings." + BOUNDED_NOTE),
+    "C05": P("other", "bounded contract checking: substring (leftmost occurrence with highest first-char bonus), prefix/postfix/exact with the whitespace rule, as postconditions of the real functions and entry points, haystack <= 5-6, needle <= 3-4, all bytes.",
+             "contract-based deductive verification (Kani contract harnesses, bounded strings)",
+             "Substring/prefix/postfix/exact contracts against the documented relations." + BOUNDED_NOTE,
+             assumptions=["U+000B is whitespace for char::is_whitespace (needle side) but not for u8::is_ascii_whitespace (ASCII haystack side); inputs containing it are excluded from the prefix/postfix/exact entry contracts"]),
+    "C08": P("other", "partial: only the SEQUENTIAL content: index->slot map and entry/bucket layout proved for all indices/columns (complete); push/extend/get/count checked against the abstract append-only view on bounded single-threaded histories (lying iterators, bucket-boundary crossings). Nothing quantified over schedules is decided (Kani is single-threaded).",
+             "contract-based deductive verification (Kani: complete arithmetic contracts + bounded sequential data-structure contract)",
+             "partial: sequential content only." + BOUNDED_NOTE,
+             note="Trusted: Kani/CBMC; atomics executed sequentially by CBMC; rayon/parking_lot not reached.", assumptions=["single thread"]),
+    "C10": P("other", "slab layout proved for ALL sizes that pass alloc's guards and alloc's guards themselves (complete, Kani); prefix-penalty arithmetic for all start positions (complete); u16 headroom on the matrix path by Verus induction; panic/overflow/bounds freedom and history independence (arbitrary prior scratch content, reused matcher) by CBMC's built-in checks inside every bounded string-level harness.",
+             "contract-based deductive verification (Kani complete layout/guard contracts + Verus induction + bounded string-level contracts with CBMC safety checks)",
+             "Layout/guards/arithmetic complete; totality and history independence on bounded strings." + BOUNDED_NOTE),
+    "C11": P("other", "partial: drop-exactly-once decided for bounded sequential non-panicking histories of one vector (extend with honest/short iterators, push, drop), incl. non-contiguous buckets. Panicking callbacks, concurrent drops, restart are not decided.",
+             "contract-based deductive verification (Kani bounded data-structure contract with drop-counting payload)",
+             "partial: sequential non-panicking histories." + BOUNDED_NOTE,
+             note="Trusted: Kani/CBMC; no unwinding (Kani aborts on panic); single thread.", assumptions=["single thread; no panics"]),
+    "C16": P("proof", "every deciding obligation quantifies over the whole char domain (all 1,112,064 scalar values) x all configurations and is loop-free or fully unwound with unwinding assertions on: to_lower_case/is_upper_case == Unicode simple case folding oracle, normalize contract (documented blocks, NFKD base letter, idempotent, ASCII fixed), agreement of every normalising entry point incl. the prefilter's byte search. Complete proofs by Kani/CBMC on the real functions.",
+             "contract-based deductive verification (Kani, complete over the full char domain)",
+             "Complete proofs over the whole char domain.",
+             note="Trusted: Kani/CBMC/cadical; Unicode oracle = Python unicodedata 14.0 cross-checked with regex-syntax 16.0 tables (generated/oracle_unicode.json); char_class_non_ascii replaced by 'returns any class' in the agreement obligation (sound over-approximation).",
+             assumptions=["Unicode oracle = Python unicodedata 14.0 cross-checked with regex-syntax 16.0 tables"]),
+    "C18": P("other", "partial: contracts (sorted / partitioned / permutation via a symbolic probe value) on the ten sequential building blocks of the parallel sort for every small array over a strict weak order with ties. Larger slices, real parallel join, mid-sort cancellation and the total-order clause are not decided.",
+             "contract-based deductive verification (Kani contract harnesses on the leaf functions, bounded arrays)",
+             "partial: sequential building blocks on small arrays." + BOUNDED_NOTE,
+             note="Trusted: Kani/CBMC; single thread; rayon::join never reached at these sizes.", assumptions=["single thread"]),
 }
+
+NOT_APPLICABLE = [
+    dict(property_id="C06", reason="quantifies over thread interleavings of Nucleo::tick / Worker::run (rayon pool, parking_lot mutex); Kani is single-threaded and cannot compile past rayon's catch_unwind, Verus would need the worker rewritten with its permission types (a model, a different family)"),
+    dict(property_id="C07", reason="quantifies over histories of tick/timeouts/cancellation and schedules; needs executing the worker pool; the append heuristic alone needs parsing symbolic pattern texts, measured infeasible under CBMC"),
+    dict(property_id="C09", reason="data-race freedom under the language memory model is a happens-before property of executions; neither Kani nor Verus models Rust atomics' orderings on this code"),
+    dict(property_id="C12", reason="histories of restart x tick x completing runs; Nucleo cannot be constructed or ticked under Kani (thread pool), no contract on a single function expresses it"),
+    dict(property_id="C13", reason="pure interleaving property (tick vs. end of the background run); no contract within reach of a single-threaded deductive verifier can express it"),
+    dict(property_id="C14", reason="String/str::split_once/grapheme machinery does not finish symbolic execution for 3-4 symbolic bytes under CBMC and Verus has no str byte reasoning; see DESIGN.md (may be claimed partially later)"),
+    dict(property_id="C15", reason="not yet built (planned: bounded contracts on Atom/Pattern score composition); see DESIGN.md"),
+    dict(property_id="C17", reason="grapheme segmentation is the unicode-segmentation dependency; symbolic strings through it do not terminate under CBMC; see DESIGN.md (accessors may be claimed partially later)"),
+    dict(property_id="C19", reason="depends on tick/run and injector threads (schedules and histories); outside single-threaded contract verification"),
+    dict(property_id="C20", reason="every transition of interest goes through Nucleo::new/tick (rayon pool, spawn); stubbing them would verify a shell, and Verus has no specification for Arc::strong_count"),
+]
 
 
 def pre_run(verif, repo, modules):
